@@ -18,6 +18,9 @@ func reducerProbe(n *pipeline.InfluxQLNode) (out string) {
 			out = fmt.Sprintf("panic(%v)", r)
 		}
 	}()
+	if n.Method == "holtWinters" {
+		return "skipped(holtWinters: the fit is an expensive optimisation)"
+	}
 	for _, a := range n.Args {
 		switch v := a.(type) {
 		case int64:
